@@ -66,6 +66,92 @@ def cases(H):
                 H.prove(H.close(tuple(a), tuple(b), 1e-6), "cases.sign_of_radii_is_ignored_SVG_F.6.6", detail=f"with given radii {a[:1]} with |radii| {b[:1]}")
 
 
+def reference_arc(start, rx, ry, rot, large, sweep, end):
+    """SVG 1.1 F.6.5 / F.6.6, written from the specification (independent of picosvg): -> cx, cy, rx, ry, theta1, dtheta"""
+    phi = math.radians(rot)
+    rx, ry = abs(rx), abs(ry)
+    x1p = math.cos(phi) * (start[0] - end[0]) / 2 + math.sin(phi) * (start[1] - end[1]) / 2
+    y1p = -math.sin(phi) * (start[0] - end[0]) / 2 + math.cos(phi) * (start[1] - end[1]) / 2
+    lam = x1p * x1p / (rx * rx) + y1p * y1p / (ry * ry)
+    if lam > 1:
+        rx, ry = math.sqrt(lam) * rx, math.sqrt(lam) * ry
+    num = rx * rx * ry * ry - rx * rx * y1p * y1p - ry * ry * x1p * x1p
+    den = rx * rx * y1p * y1p + ry * ry * x1p * x1p
+    co = math.sqrt(max(num / den, 0.0)) * (1 if bool(large) != bool(sweep) else -1)
+    cxp, cyp = co * rx * y1p / ry, -co * ry * x1p / rx
+    cx = math.cos(phi) * cxp - math.sin(phi) * cyp + (start[0] + end[0]) / 2
+    cy = math.sin(phi) * cxp + math.cos(phi) * cyp + (start[1] + end[1]) / 2
+    ang = lambda ux, uy, vx, vy: math.atan2(ux * vy - uy * vx, ux * vx + uy * vy)
+    th1 = ang(1, 0, (x1p - cxp) / rx, (y1p - cyp) / ry)
+    dth = ang((x1p - cxp) / rx, (y1p - cyp) / ry, (-x1p - cxp) / rx, (-y1p - cyp) / ry)
+    if not sweep and dth > 0:
+        dth -= 2 * math.pi
+    elif sweep and dth < 0:
+        dth += 2 * math.pi
+    return cx, cy, rx, ry, th1, dth
+
+
+def native_arc_oracle(start, rx, ry, rot, large, sweep, end):
+    """Run the real arc_to_cubic and compare its cubics with the reference ellipse arc: -> (ok, text)"""
+    if tuple(start) == tuple(end):
+        return list(arc_to_cubic(start, rx, ry, rot, large, sweep, end)) == [], "coincident end points"
+    if rx == 0 or ry == 0:
+        out = list(arc_to_cubic(start, rx, ry, rot, large, sweep, end))
+        return len(out) == 1 and out[0][0] is None and tuple(out[0][2]) == tuple(end), "zero radius"
+    cx, cy, erx, ery, th1, dth = reference_arc(start, rx, ry, rot, large, sweep, end)
+    segs = list(arc_to_cubic(start, rx, ry, rot, large, sweep, end))
+    if not segs:
+        return False, "no segment for a proper arc"
+    if tuple(segs[-1][2]) != tuple(end):
+        return False, f"last end point {tuple(segs[-1][2])} is not the arc end {tuple(end)}"
+    phi = math.radians(rot)
+    cur, worst, total, prev_ang = tuple(start), 0.0, 0.0, None
+    for (p1, p2, e) in segs:
+        for k in range(0, 17):
+            t = k / 16
+            m = 1 - t
+            x = m ** 3 * cur[0] + 3 * m * m * t * p1[0] + 3 * m * t * t * p2[0] + t ** 3 * e[0]
+            y = m ** 3 * cur[1] + 3 * m * m * t * p1[1] + 3 * m * t * t * p2[1] + t ** 3 * e[1]
+            dx, dy = x - cx, y - cy
+            ux, uy = (math.cos(phi) * dx + math.sin(phi) * dy) / erx, (-math.sin(phi) * dx + math.cos(phi) * dy) / ery
+            worst = max(worst, abs(math.hypot(ux, uy) - 1))
+            a = math.atan2(uy, ux)
+            if prev_ang is not None:
+                step = a - prev_ang
+                while step > math.pi:
+                    step -= 2 * math.pi
+                while step < -math.pi:
+                    step += 2 * math.pi
+                total += step
+            prev_ang = a
+        cur = tuple(e)
+    if worst > 3.0e-4 * 1.02:
+        return False, f"relative radial deviation {worst:.3g} from the F.6.5 ellipse (centre {cx:.4g},{cy:.4g} radii {erx:.4g},{ery:.4g})"
+    if abs(total - dth) > 1e-3 * (1 + abs(dth)):
+        return False, f"swept angle {total:.6g} but the flags select {dth:.6g}"
+    return True, f"ok: deviation {worst:.3g}, sweep {total:.5g}"
+
+
+def _native_all(H, labels, start, rx, ry, rot, large, sweep, end):
+    ok, text = native_arc_oracle(start, rx, ry, rot, large, sweep, end)
+    for lab in labels:
+        H.prove(ok, lab, detail=text)
+
+
+_CENTRE_LABELS = ("centre.unit_frame_points_distinct", "centre.no_exception_for_proper_arc", "centre.unit_frame_chord_is_2_sqrt_Lambda",
+                  "centre.atan2_applied_to_vectors_from_centre_to_end_points", "centre.both_end_points_at_distance_1_from_centre_in_unit_frame",
+                  "centre.cross_product_is_signed_scale_factor_times_d", "centre.dot_product_lemma", "centre.vectors_differ_by_the_chord",
+                  "centre.inverse_matrix_undoes_unit_frame_on_start_point", "centre.inverse_matrix_undoes_unit_frame_on_end_point",
+                  "centre.ellipse_frame_translate_rotate_scale_agrees_with_inverse_matrix", "flags.extent_strictly_between_0_and_2pi",
+                  "flags.sweep_selects_direction", "flags.large_arc_selects_extent", "flags.theta_arc_is_angle_difference_mod_2pi",
+                  "centre.maps_start_end_and_returns_mapped_centre", "centre.theta1_is_atan2_of_first_vector_two_atan2_three_map_point_calls",
+                  "centre.same_unit_frame_matrix_for_both_end_points")
+_SEGMENT_LABELS = ("segments.first_control_point_on_start_tangent", "segments.second_control_point_on_end_tangent", "segments.inner_end_point_on_the_ellipse",
+                   "segments.control_distance_uses_tan_of_quarter_step", "segments.one_cubic_per_iteration", "segments.count_is_ceil_of_extent_over_quarter_turn",
+                   "segments.each_spans_at_most_quarter_turn_plus_0.001", "segments.last_segment_ends_exactly_at_arc_end_point", "segments.step_is_extent_over_n",
+                   "segments.radii_are_corrected_first", "segments.no_exception")
+
+
 def _frame(H, rot):
     """sin/cos of the x-axis rotation (degrees) as used by both the code and the spec"""
     ang = rot * H.PI / 180
@@ -158,18 +244,12 @@ def centre_and_flags(H):
     arc = EllipticalArc(start, rx, ry, rot, large, sweep, end)
 
     if H.mode == "concrete":
-        if not (lam <= 1 and rx > 0 and ry > 0):
+        # native replay / falsification: the whole chain against an independent F.6.5 implementation
+        if rx == 0 or ry == 0 or tuple(start) == tuple(end):
             from pyvc.vc import PathInfeasible
 
             raise PathInfeasible()
-        th1, dth, c = arc.end_to_center_parametrization()
-        n0 = _to_ellipse_frame(start, c, math.sin(math.radians(rot)), math.cos(math.radians(rot)))
-        n1 = _to_ellipse_frame(end, c, math.sin(math.radians(rot)), math.cos(math.radians(rot)))
-        on = lambda n: abs((n[0] / rx) ** 2 + (n[1] / ry) ** 2 - 1) < 1e-6
-        H.prove(on(n0) and on(n1), "centre.end_points_on_ellipse_around_centre")
-        H.prove((dth > 0) == bool(sweep) and 0 < abs(dth) < 2 * math.pi + 1e-9, "flags.sweep_selects_direction")
-        H.prove((abs(dth) >= math.pi - 1e-9) if large else (abs(dth) <= math.pi + 1e-9), "flags.large_arc_selects_extent")
-        return
+        return _native_all(H, _CENTRE_LABELS, start, abs(rx), abs(ry), rot, large, sweep, end)
 
     H.assume(lam <= 1)
     H.assume(And(rx > 0, ry > 0))  # precondition: established by arc_to_cubic (|rx|, |ry|) and kept by the radii correction
@@ -416,31 +496,9 @@ def segments(H):
 
 
 def _segments_native(H, arc):
-    """native counterpart (replay): sample the produced cubics against the ellipse of the corrected arc"""
+    """native counterpart (replay / falsification): the produced cubics against an independent F.6.5 implementation"""
     if arc.is_straight_line() or arc.is_zero_length():
         from pyvc.vc import PathInfeasible
 
         raise PathInfeasible()
-    a = arc._replace(rx=abs(arc.rx), ry=abs(arc.ry)).correct_out_of_range_radii()
-    th1, dth, c = a.end_to_center_parametrization()
-    segs = list(_arc_to_cubic(arc._replace(rx=abs(arc.rx), ry=abs(arc.ry))))
-    n = len(segs)
-    H.prove(n >= 1 and abs(dth) / n <= math.pi / 2 + 0.0011, "segments.each_spans_at_most_quarter_turn_plus_0.001")
-    H.prove(tuple(segs[-1][2]) == tuple(arc.end_point), "segments.last_segment_ends_exactly_at_arc_end_point")
-    phi = math.radians(a.rotation)
-    worst = 0.0
-    cur = tuple(arc.start_point)
-    for (p1, p2, e) in segs:
-        for k in range(0, 11):
-            t = k / 10
-            m = 1 - t
-            x = m ** 3 * cur[0] + 3 * m * m * t * p1[0] + 3 * m * t * t * p2[0] + t ** 3 * e[0]
-            y = m ** 3 * cur[1] + 3 * m * m * t * p1[1] + 3 * m * t * t * p2[1] + t ** 3 * e[1]
-            dx, dy = x - c[0], y - c[1]
-            ux, uy = (math.cos(phi) * dx + math.sin(phi) * dy) / a.rx, (-math.sin(phi) * dx + math.cos(phi) * dy) / a.ry
-            worst = max(worst, abs(math.hypot(ux, uy) - 1))
-        cur = tuple(e)
-    ok = worst <= 3.0e-4
-    for lab in ("segments.first_control_point_on_start_tangent", "segments.second_control_point_on_end_tangent", "segments.inner_end_point_on_the_ellipse",
-                "segments.control_distance_uses_tan_of_quarter_step", "segments.one_cubic_per_iteration", "segments.count_is_ceil_of_extent_over_quarter_turn"):
-        H.prove(ok, lab, detail=f"worst relative radial deviation {worst:.3g}")
+    _native_all(H, _SEGMENT_LABELS, arc.start_point, abs(arc.rx), abs(arc.ry), arc.rotation, arc.large, arc.sweep, arc.end_point)
